@@ -40,7 +40,12 @@ def gen_ops(rng, docs, n):
     odd = ODD_URIS
     ops = []
     for _ in range(n):
-        k = rng.randrange(14)
+        k = rng.randrange(15)
+        if k == 14:
+            # a cancellation for a request that has not been sent yet (it overtook its request, or the id is reused
+            # later): the request, when it comes, is still a request
+            ops.append(("cancel", rng.choice([0, 0, 1, 2, 5, -1])))
+            continue
         if k == 12:
             m = rng.choice(BAD_METHODS)
             ops.append(("odd-params", m, rng.choice(BAD_PARAMS), m == "textDocument/semanticTokens/full" or
@@ -75,6 +80,8 @@ def gen_ops(rng, docs, n):
 def op_class(op):
     if op[0] == "odd-params":
         return "odd-params-" + ("request" if op[3] else "notification")
+    if op[0] == "cancel":
+        return "cancel-" + ("future-id" if op[1] >= 0 else "past-id")
     if op[0] == "change":
         return "change%d" % min(len(op[2]), 2)
     if op[0] in ("unimpl-request", "unimpl-notification"):
@@ -110,6 +117,8 @@ def run_session(ops, tmp):
             sent_ids[rid] = op_class(op)
         elif op[0] == "unimpl-notification":
             s.notify(op[1], {"textDocument": {"uri": op[2]}, "value": "off", "id": 1})
+        elif op[0] == "cancel":
+            s.notify("$/cancelRequest", {"id": s.next_id + op[1]})
         elif op[0] == "odd-params":
             if op[3]:
                 rid = s.request(op[1], op[2])
@@ -198,6 +207,8 @@ def shard(shard_i, nshards, payload):
             # documents being typed: cut off, ending in a non-ASCII character without a final line break
             docs += [hostile.truncate_with_tail(docs[0], rng) for _ in range(3)]
             docs += ["\ufeff" + docs[0], docs[1] + " // é", "PROGRAM p\nVAR x : INT; END_VAR\nx := 1;\n// René"]
+            # form feeds (page breaks in printed listings): between declarations, inside a line, inside a comment
+            docs += [docs[0].replace("\n\n", "\n\f\n", 2), "PROGRAM p\fVAR x : INT; END_VAR\f\fx := 1; (* a\fb *)\nEND_PROGRAM\f"]
             if payload.get("clean_docs"):
                 docs = docs[:7]
             ops = gen_ops(rng, docs, rng.randint(1, 60))
